@@ -370,7 +370,8 @@ def get_included_models(model):
     """
     if hasattr(model, "_tx_model_repository"):
         models = list(model._tx_model_repository.all_models)
-        if model not in models:
+        # (by identity: a user class may define __eq__)
+        if not any(m is model for m in models):
             models.append(model)
     else:
         models = [model]
